@@ -216,7 +216,7 @@ Definition ulog_ok (s : state) : Prop :=
 Definition wait_ok (s : state) : Prop :=
   s.(pc) = PIdle -> s.(pollable) = true \/
      match s.(sst) with
-     | SWaitQueue => s.(ready).(o_waker) = Some WTask /\ s.(pool) = true
+     | SWaitQueue => s.(ready).(o_waker) = Some WTask /\ s.(pool) = true /\ s.(ready).(o_sent) = false
      | SWaitFuture => exists e r, s.(uscr) = UAwait e :: r /\
                         (s.(evs) !! e = None \/
                          exists c, s.(evs) !! e = Some c /\ c.(fired) = false /\ WTask ∈ c.(regs))
